@@ -67,10 +67,15 @@ def allResolved : List (Option FieldView) → Option (List FieldView)
   | none :: _ => none
   | some f :: rest => (allResolved rest).map (f :: ·)
 
-/-- the members of the mapping validators' `raw` keys -/
-def keysOf : RawView → Option (List Str)
-  | .pairs ks _ => some ks
-  | _ => none
+/-- is the key one of the declared field names? -/
+def declared (schemaKeys : List Str) (k : Val) : Bool := schemaKeys.any (fun a => same k (.str a))
+
+/-- is the field name among the given keys? -/
+def given (ks : List Val) (a : Str) : Bool := ks.any (fun k => same (.str a) k)
+
+/-- the labels that go into the MapEqual message are texts -/
+def textLabels (l : List FieldView) : Bool :=
+  l.all (fun f => match f.label with | .str _ => true | _ => false)
 
 def documented (v : V) (e : View) : Option Bool :=
   match v with
@@ -106,6 +111,7 @@ def documented (v : V) (e : View) : Option Bool :=
     | none => none
     | some [] => none
     | some (first :: rest) =>
+      if !textLabels (first :: rest) then none else
       some (rest.all (fun f => match k with
         | .element => same f.value first.value && f.u == first.u
         | .value => same f.value first.value
@@ -132,16 +138,11 @@ def documented (v : V) (e : View) : Option Bool :=
       some (decide (lo ≤ lenOrZero e.valueLen ∧ lenOrZero e.valueLen ≤ hi))
   | .setWithKnownFields =>
     match e.raw with
-    | .pairs ks false => some (ks.all (fun k => e.schemaKeys.contains k))
-    | .pairs _ true => some false   -- a key that is not text is never a declared field
-    | .badPairs => none
-    | _ => some true            -- raw not available / not iterable: deemed valid
+    | .pairs ks => some (ks.all (declared e.schemaKeys))
+    | _ => some true            -- raw not available / not an iterable of pairs: deemed valid
   | .setWithAllFields =>
     match e.raw with
-    | .pairs _ true => some false
-    | .pairs ks false => some (ks.all (fun k => e.schemaKeys.contains k) &&
-                         e.schemaKeys.all (fun k => ks.contains k))
-    | .badPairs => none
+    | .pairs ks => some (ks.all (declared e.schemaKeys) && e.schemaKeys.all (given ks))
     | _ => some true
   | .luhn10 =>
     match e.value with
